@@ -1,0 +1,198 @@
+//! C40: a generic driver for `LdapServer::do_op` (the harness crate has no `ldap3_proto`
+//! dependency, so requests are built and responses are flattened here), and the list of
+//! operations the LDAP gateway accepts, as an exhaustive match (a new operation added to
+//! `ServerOps` stops this file from compiling).
+
+use super::c23::HookLdapFilter;
+use crate::idm::ldap::{LdapBoundToken, LdapResponseState, LdapServer};
+use crate::idm::server::IdmServer;
+use crate::prelude::*;
+use ldap3_proto::proto::{LdapMsg, LdapOp, LdapResult};
+use ldap3_proto::simple::{
+    CompareRequest, LdapFilter, LdapSearchScope, SearchRequest, ServerOps, SimpleBindRequest,
+    UnbindRequest, WhoamiRequest,
+};
+use std::net::{IpAddr, Ipv4Addr};
+
+#[derive(Debug, Clone)]
+pub enum HookOp {
+    Bind {
+        dn: String,
+        pw: String,
+    },
+    /// scope: 0 = base, 1 = one level, 2 = subtree, 3 = children
+    Search {
+        base: String,
+        scope: u8,
+        filter: HookLdapFilter,
+        attrs: Vec<String>,
+    },
+    Compare {
+        entry: String,
+        atype: String,
+        val: String,
+    },
+    Unbind,
+    Whoami,
+}
+
+/// One LDAP result: the result code name and the diagnostic message.
+#[derive(Debug, Clone)]
+pub struct HookResult {
+    pub code: String,
+    pub message: String,
+}
+
+#[derive(Debug, Clone)]
+pub struct HookResp {
+    /// which `ServerOps` constructor was dispatched (see `op_kind`)
+    pub kind: u8,
+    /// which `LdapResponseState` constructor came back:
+    /// 0 Unbind, 1 Disconnect, 2 Bind, 3 Respond, 4 MultiPartResponse, 5 BindMultiPartResponse
+    pub state: u8,
+    /// the bound token carried by Bind / BindMultiPartResponse
+    pub token: Option<LdapBoundToken>,
+    /// search result entries: dn and the attribute type names returned
+    pub entries: Vec<(String, Vec<String>)>,
+    /// the final result of the operation (bind / search done / compare / extended response)
+    pub result: Option<HookResult>,
+    /// value of a whoami extended response
+    pub whoami: Option<String>,
+    /// anything that is not a response to a read operation
+    pub unexpected: Vec<String>,
+}
+
+/// Every operation the gateway can be asked to perform. Exhaustive on purpose.
+pub fn op_kind(op: &ServerOps) -> u8 {
+    match op {
+        ServerOps::SimpleBind(_) => 0,
+        ServerOps::Search(_) => 1,
+        ServerOps::Unbind(_) => 2,
+        ServerOps::Compare(_) => 3,
+        ServerOps::Whoami(_) => 4,
+    }
+}
+
+fn lf(f: &HookLdapFilter) -> LdapFilter {
+    match f {
+        HookLdapFilter::Eq(a, v) => LdapFilter::Equality(a.clone(), v.clone()),
+        HookLdapFilter::Pres(a) => LdapFilter::Present(a.clone()),
+        HookLdapFilter::And(l) => LdapFilter::And(l.iter().map(lf).collect()),
+        HookLdapFilter::Or(l) => LdapFilter::Or(l.iter().map(lf).collect()),
+        HookLdapFilter::Not(g) => LdapFilter::Not(Box::new(lf(g))),
+    }
+}
+
+fn res(r: &LdapResult) -> HookResult {
+    HookResult {
+        code: format!("{:?}", r.code),
+        message: r.message.clone(),
+    }
+}
+
+fn absorb(out: &mut HookResp, m: LdapMsg) {
+    match m.op {
+        LdapOp::BindResponse(b) => out.result = Some(res(&b.res)),
+        LdapOp::SearchResultEntry(e) => out
+            .entries
+            .push((e.dn, e.attributes.into_iter().map(|a| a.atype).collect())),
+        LdapOp::SearchResultDone(r) => out.result = Some(res(&r)),
+        LdapOp::CompareResult(r) => out.result = Some(res(&r)),
+        LdapOp::ExtendedResponse(x) => {
+            out.result = Some(res(&x.res));
+            out.whoami = x.value.map(|v| String::from_utf8_lossy(&v).to_string());
+        }
+        other => out.unexpected.push(format!("{other:?}")),
+    }
+}
+
+/// Run one operation through `LdapServer::do_op` on a connection whose current bind state is
+/// `uat` (`None` = nothing bound yet).
+pub async fn do_op(
+    ldap: &LdapServer,
+    idms: &IdmServer,
+    op: &HookOp,
+    uat: Option<LdapBoundToken>,
+) -> Result<HookResp, String> {
+    let sop = match op {
+        HookOp::Bind { dn, pw } => ServerOps::SimpleBind(SimpleBindRequest {
+            msgid: 1,
+            dn: dn.clone(),
+            pw: pw.clone(),
+        }),
+        HookOp::Search {
+            base,
+            scope,
+            filter,
+            attrs,
+        } => ServerOps::Search(SearchRequest {
+            msgid: 1,
+            base: base.clone(),
+            scope: match scope {
+                0 => LdapSearchScope::Base,
+                1 => LdapSearchScope::OneLevel,
+                2 => LdapSearchScope::Subtree,
+                _ => LdapSearchScope::Children,
+            },
+            filter: lf(filter),
+            attrs: attrs.clone(),
+        }),
+        HookOp::Compare { entry, atype, val } => ServerOps::Compare(CompareRequest {
+            msgid: 1,
+            entry: entry.clone(),
+            atype: atype.clone(),
+            val: val.clone(),
+        }),
+        HookOp::Unbind => ServerOps::Unbind(UnbindRequest),
+        HookOp::Whoami => ServerOps::Whoami(WhoamiRequest { msgid: 1 }),
+    };
+    let mut out = HookResp {
+        kind: op_kind(&sop),
+        state: 0,
+        token: None,
+        entries: Vec::new(),
+        result: None,
+        whoami: None,
+        unexpected: Vec::new(),
+    };
+    let r = ldap
+        .do_op(
+            idms,
+            sop,
+            uat,
+            IpAddr::V4(Ipv4Addr::LOCALHOST),
+            Uuid::new_v4(),
+        )
+        .await
+        .map_err(|e| format!("{e:?}"))?;
+    match r {
+        LdapResponseState::Unbind => out.state = 0,
+        LdapResponseState::Disconnect(m) => {
+            out.state = 1;
+            absorb(&mut out, m);
+        }
+        LdapResponseState::Bind(t, m) => {
+            out.state = 2;
+            out.token = Some(t);
+            absorb(&mut out, m);
+        }
+        LdapResponseState::Respond(m) => {
+            out.state = 3;
+            absorb(&mut out, m);
+        }
+        LdapResponseState::MultiPartResponse(v) => {
+            out.state = 4;
+            for m in v {
+                absorb(&mut out, m);
+            }
+        }
+        LdapResponseState::BindMultiPartResponse(t, v) => {
+            out.state = 5;
+            out.token = Some(t);
+            for m in v {
+                absorb(&mut out, m);
+            }
+        }
+    }
+    Ok(out)
+}
